@@ -247,7 +247,9 @@ Definition for_iter (f : nat) (P : program) (e : env) (var : str) (body : list s
   | None => ret (SigNone, e)
   | Some (l, rg') =>
       let* e1 := update_var var l e in
-      let* (sig, e2) := exec_block f P e1 body in
+      (* every iteration runs the body in a scope of its own *)
+      let* (sig, e2') := exec_block f P ([] :: e1) body in
+      let e2 := tl e2' in
       match sig with
       | SigBreak => ret (SigNone, e2)
       | SigReturn v => ret (SigReturn v, e2)
@@ -321,7 +323,7 @@ Definition scope_inv (n : nat) : Prop :=
   (forall P e l, post (exec_block n P e l) (fun r => ext e (snd r))) /\
   (forall P e c body, post (exec_cond n P e c body) (fun r => shape (snd r) = shape e)) /\
   (forall P e c body, post (exec_while n P e c body) (fun r => shape (snd r) = shape e)) /\
-  (forall P e var rg body, post (exec_for n P e var rg body) (fun r => ext e (snd r))).
+  (forall P e var rg body, post (exec_for n P e var rg body) (fun r => shape (snd r) = shape e)).
 
 Lemma same_all e e' (b : bool) :
   e' = e -> ext e e' /\ (b = false -> shape e' = shape e) /\ (b = true -> tl e' = tl e).
@@ -390,7 +392,7 @@ Proof.
       eapply post_bind; [apply for_init_ext|]. intros [rg e2] H2; simpl in H2.
       eapply post_bind; [apply Hf|]. intros [sig e3] H3; simpl in H3.
       apply post_ret; simpl. apply shape_all; [reflexivity|].
-      apply ext_push_pop. eapply ext_trans; eassumption.
+      apply ext_push_pop. eapply ext_trans; [exact H2 | apply shape_ext; exact H3].
     + (* SNop *) simpl. repeat mstep; simpl; apply same_all; reflexivity.
   - (* exec_stmts *)
     intros P e l. destruct l as [|s t]; [rewrite exec_stmts_nil; apply post_ret; apply ext_refl|].
@@ -411,12 +413,12 @@ Proof.
     eapply post_weaken; [apply Hw|]. intros rr Ha; simpl in *; congruence.
   - (* exec_for *)
     intros P e var rg body. rewrite exec_for_unfold. apply post_bind_any; intros [[l rg']|]; simpl;
-      [|apply post_ret; apply ext_refl].
+      [|apply post_ret; reflexivity].
     eapply post_bind; [apply post_update_var|]. intros e1 H1.
-    eapply post_bind; [apply Hb|]. intros [sig e2] H2; simpl in H2.
-    assert (E : ext e e2) by (eapply ext_trans; [apply shape_ext; exact H1 | exact H2]).
+    eapply post_bind; [apply Hb|]. intros [sig e2] H2; cbn [snd] in H2.
+    assert (E : shape (tl e2) = shape e) by (rewrite (ext_push_pop _ _ H2); exact H1).
     destruct sig; try (apply post_ret; exact E).
-    eapply post_weaken; [apply Hf|]. intros rr Ha; simpl in *. eapply ext_trans; eassumption.
+    eapply post_weaken; [apply Hf|]. intros rr Ha; simpl in *. congruence.
 Qed.
 
 (* the statement of item 1 in direct form *)
@@ -456,8 +458,8 @@ Theorem while_restores_scope n P e c body st sig e' st' :
   exec_while n P e c body st = (Ok (sig, e'), st') -> shape e' = shape e.
 Proof. intro H. destruct (scope_inv_all n) as (_ & _ & _ & _ & Hw & _). apply Hw in H. exact H. Qed.
 
-Theorem for_extends_scope n P e var rg body st sig e' st' :
-  exec_for n P e var rg body st = (Ok (sig, e'), st') -> ext e e'.
+Theorem for_restores_scope n P e var rg body st sig e' st' :
+  exec_for n P e var rg body st = (Ok (sig, e'), st') -> shape e' = shape e.
 Proof. intro H. destruct (scope_inv_all n) as (_ & _ & _ & _ & _ & Hf). apply Hf in H. exact H. Qed.
 
 (* top level: no local frame; declarations go to the globals *)
@@ -662,8 +664,8 @@ Qed.
 
 Lemma for_break_ends_loop f P e var rg body st l rg' st1 e1 st2 e2 st3 :
   for_next rg st = (Ok (Some (l, rg')), st1) -> update_var var l e st1 = (Ok e1, st2) ->
-  exec_block f P e1 body st2 = (Ok (SigBreak, e2), st3) ->
-  exec_for (S f) P e var rg body st = (Ok (SigNone, e2), st3).
+  exec_block f P ([] :: e1) body st2 = (Ok (SigBreak, e2), st3) ->
+  exec_for (S f) P e var rg body st = (Ok (SigNone, tl e2), st3).
 Proof.
   intros H1 H2 H3. rewrite exec_for_unfold, (bindM_ok _ _ _ _ _ H1). simpl.
   rewrite (bindM_ok _ _ _ _ _ H2), (bindM_ok _ _ _ _ _ H3). reflexivity.
@@ -671,8 +673,8 @@ Qed.
 
 Lemma for_return_passes f P e var rg body st l rg' st1 e1 st2 v e2 st3 :
   for_next rg st = (Ok (Some (l, rg')), st1) -> update_var var l e st1 = (Ok e1, st2) ->
-  exec_block f P e1 body st2 = (Ok (SigReturn v, e2), st3) ->
-  exec_for (S f) P e var rg body st = (Ok (SigReturn v, e2), st3).
+  exec_block f P ([] :: e1) body st2 = (Ok (SigReturn v, e2), st3) ->
+  exec_for (S f) P e var rg body st = (Ok (SigReturn v, tl e2), st3).
 Proof.
   intros H1 H2 H3. rewrite exec_for_unfold, (bindM_ok _ _ _ _ _ H1). simpl.
   rewrite (bindM_ok _ _ _ _ _ H2), (bindM_ok _ _ _ _ _ H3). reflexivity.
@@ -680,8 +682,8 @@ Qed.
 
 Lemma for_iterates f P e var rg body st l rg' st1 e1 st2 e2 st3 :
   for_next rg st = (Ok (Some (l, rg')), st1) -> update_var var l e st1 = (Ok e1, st2) ->
-  exec_block f P e1 body st2 = (Ok (SigNone, e2), st3) ->
-  exec_for (S f) P e var rg body st = exec_for f P e2 var rg' body st3.
+  exec_block f P ([] :: e1) body st2 = (Ok (SigNone, e2), st3) ->
+  exec_for (S f) P e var rg body st = exec_for f P (tl e2) var rg' body st3.
 Proof.
   intros H1 H2 H3. rewrite exec_for_unfold, (bindM_ok _ _ _ _ _ H1). simpl.
   rewrite (bindM_ok _ _ _ _ _ H2), (bindM_ok _ _ _ _ _ H3). reflexivity.
@@ -1101,7 +1103,7 @@ Record visit := {
   v_st : state;       (* program state when next() was called *)
   v_loc : loc;        (* the cell next() bound the loop variable to *)
   v_st1 : state;      (* program state when next() returned *)
-  v_env : env         (* environment the body ran in *)
+  v_env : env         (* environment the body ran in: a fresh frame over the loop's *)
 }.
 
 Definition visit_val (v : visit) : option hval := hget (st_heap (v_st1 v)) (v_loc v).
@@ -1114,19 +1116,19 @@ Inductive for_trace (P : program) (var : str) (body : list stmt)
 | ft_break rg e st l rg' st1 e1 st2 k e2 st3 :
     for_next rg st = (Ok (Some (l, rg')), st1) ->
     update_var var l e st1 = (Ok e1, st2) ->
-    exec_block k P e1 body st2 = (Ok (SigBreak, e2), st3) ->
-    for_trace P var body rg e st [Build_visit rg st l st1 e1] FeBreak e2 st3
+    exec_block k P ([] :: e1) body st2 = (Ok (SigBreak, e2), st3) ->
+    for_trace P var body rg e st [Build_visit rg st l st1 ([] :: e1)] FeBreak (tl e2) st3
 | ft_return rg e st l rg' st1 e1 st2 k v e2 st3 :
     for_next rg st = (Ok (Some (l, rg')), st1) ->
     update_var var l e st1 = (Ok e1, st2) ->
-    exec_block k P e1 body st2 = (Ok (SigReturn v, e2), st3) ->
-    for_trace P var body rg e st [Build_visit rg st l st1 e1] (FeReturn v) e2 st3
+    exec_block k P ([] :: e1) body st2 = (Ok (SigReturn v, e2), st3) ->
+    for_trace P var body rg e st [Build_visit rg st l st1 ([] :: e1)] (FeReturn v) (tl e2) st3
 | ft_next rg e st l rg' st1 e1 st2 k e2 st3 tr en e' st' :
     for_next rg st = (Ok (Some (l, rg')), st1) ->
     update_var var l e st1 = (Ok e1, st2) ->
-    exec_block k P e1 body st2 = (Ok (SigNone, e2), st3) ->
-    for_trace P var body rg' e2 st3 tr en e' st' ->
-    for_trace P var body rg e st (Build_visit rg st l st1 e1 :: tr) en e' st'.
+    exec_block k P ([] :: e1) body st2 = (Ok (SigNone, e2), st3) ->
+    for_trace P var body rg' (tl e2) st3 tr en e' st' ->
+    for_trace P var body rg e st (Build_visit rg st l st1 ([] :: e1) :: tr) en e' st'.
 
 Theorem exec_for_trace n P e var rg body st sig e' st' :
   exec_for n P e var rg body st = (Ok (sig, e'), st') ->
@@ -1188,8 +1190,28 @@ Proof.
   - constructor; [|constructor]. simpl. eapply update_var_binds; eassumption.
   - destruct (update_var_binds _ _ _ _ _ _ H0 U I) as [B I1].
     constructor; [exact B|]. apply IHfor_trace.
-    eapply ext_keeps_name; [|exact I1].
-    destruct (scope_inv_all k) as (_ & _ & Hb & _). apply Hb in H1. exact H1.
+    eapply ext_keeps_name; [|exact I1]. apply shape_ext.
+    destruct (scope_inv_all k) as (_ & _ & Hb & _). apply Hb in H1. cbn [snd] in H1.
+    apply ext_push_pop; exact H1.
+Qed.
+
+(* every iteration's body starts in a fresh, empty frame pushed over an
+   environment of the shape the loop had at entry: a variable declared by the
+   body in one iteration does not exist in the next one, nor after the loop *)
+Theorem for_trace_fresh_scope P var body rg e st tr en e' st' :
+  for_trace P var body rg e st tr en e' st' ->
+  Forall (fun v => shape (v_env v) = [] :: shape e) tr /\ shape e' = shape e.
+Proof.
+  intro H. induction H.
+  - split; [constructor | reflexivity].
+  - pose proof (post_update_var _ _ _ _ _ _ H0) as S1. apply block_pop_restores in H1 as [S2 _].
+    split; [repeat constructor; simpl; unfold shape in *; simpl; congruence | congruence].
+  - pose proof (post_update_var _ _ _ _ _ _ H0) as S1. apply block_pop_restores in H1 as [S2 _].
+    split; [repeat constructor; simpl; unfold shape in *; simpl; congruence | congruence].
+  - pose proof (post_update_var _ _ _ _ _ _ H0) as S1. apply block_pop_restores in H1 as [S2 _].
+    destruct IHfor_trace as [F E]. assert (S3 : shape (tl e2) = shape e) by congruence.
+    split; [|congruence]. constructor; [simpl; unfold shape in *; simpl; congruence|].
+    eapply Forall_impl; [|exact F]. intros v Hv. simpl in Hv. rewrite Hv, S3. reflexivity.
 Qed.
 
 Local Open Scope nat_scope.
@@ -1657,10 +1679,11 @@ Section Shadow.
       intros s r s' H V A. destruct (H1 V) as [T1 V1].
       apply bindM_inv in H as ([sig e2] & s2 & H2 & H).
       pose proof H2 as H2'. apply Hb in H2'. simpl in H2'. specialize (H2' A).
-      assert (V2 : var_in_top var e2).
-      { eapply var_in_top_ext; [|exact V1]. destruct (scope_inv_all f) as (_ & _ & Hbs & _).
-        apply Hbs in H2. exact H2. }
-      assert (K : keeps_tl e e2) by (unfold keeps_tl in *; rewrite H2', T1; reflexivity).
+      assert (V2 : var_in_top var (tl e2)).
+      { eapply var_in_top_ext; [|exact V1]. apply shape_ext. apply ext_push_pop.
+        destruct (scope_inv_all f) as (_ & _ & Hbs & _). apply Hbs in H2. exact H2. }
+      assert (K : keeps_tl e (tl e2)).
+      { unfold keeps_tl in *. cbn [tl] in H2'. rewrite (bindings_tl x (tl e2)), H2', <- bindings_tl, T1. reflexivity. }
       destruct sig; try (inversion H; subst; exact K).
       apply Hf in H. simpl in H. specialize (H V2 A). unfold keeps_tl in *. rewrite H. exact K.
   Qed.
@@ -1892,8 +1915,8 @@ Theorem break_leaves_innermost_loop :
   (* the same for every kind of for loop *)
   (forall f P e var rg body st l rg' st1 e1 st2 e2 st3,
      for_next rg st = (Ok (Some (l, rg')), st1) -> update_var var l e st1 = (Ok e1, st2) ->
-     exec_block f P e1 body st2 = (Ok (SigBreak, e2), st3) ->
-     exec_for (S f) P e var rg body st = (Ok (SigNone, e2), st3)) /\
+     exec_block f P ([] :: e1) body st2 = (Ok (SigBreak, e2), st3) ->
+     exec_for (S f) P e var rg body st = (Ok (SigNone, tl e2), st3)) /\
   (* no loop ever reports a break to its surroundings, whatever its body is *)
   (forall n P e c body st sig e' st',
      exec_while n P e c body st = (Ok (sig, e'), st') -> sig <> SigBreak) /\
@@ -1943,8 +1966,8 @@ Theorem return_leaves_call :
      exec_while (S f) P e c body st = (Ok (SigReturn v, e1), st1)) /\
   (forall f P e var rg body st l rg' st1 e1 st2 v e2 st3,
      for_next rg st = (Ok (Some (l, rg')), st1) -> update_var var l e st1 = (Ok e1, st2) ->
-     exec_block f P e1 body st2 = (Ok (SigReturn v, e2), st3) ->
-     exec_for (S f) P e var rg body st = (Ok (SigReturn v, e2), st3)) /\
+     exec_block f P ([] :: e1) body st2 = (Ok (SigReturn v, e2), st3) ->
+     exec_for (S f) P e var rg body st = (Ok (SigReturn v, tl e2), st3)) /\
   (* ... and the call consumes it: SigReturn v becomes the call's value, the
      callee environment is dropped *)
   (forall f P fd vals st fr st1 v e2 st2,
